@@ -516,6 +516,7 @@ func c03run(w *report.W) {
 }
 
 func c09run(w *report.W) {
+	seamconfReport(w)
 	o := docOpts{fixpoint: true}
 	pres := []string{"yaml-block"}
 	if !w.Thorough() {
